@@ -8,7 +8,7 @@ from ..engines import seqgen as G
 ID = "C03"
 ENGINE = "seqsim"
 LEVEL = "exploration"
-RUNS = {"quick": 30000, "thorough": 500000}
+RUNS = {"quick": 120000, "thorough": 500000}
 CHUNK = 250
 RULE = ("seeded operation SEQUENCES over the full MutableMapping/MutableSequence surface (incl. inherited mixins, "
         "slices get/set/del with extended steps and wrong lengths, negative/out-of-range/wrongly-typed indices, "
